@@ -265,6 +265,26 @@ def simple_cache_fun(f):
     return g
 
 
+def instance_cache_fun(f):
+    """
+    cache the result of a method on the object itself (keyed by arguments).
+    Decays and particles hash and compare by name only, so a shared
+    ``functools.lru_cache`` would hand the result of one object to another
+    object with the same names but different quantum numbers.
+    """
+    name = "instance_cached_" + f.__name__
+
+    @functools.wraps(f)
+    def g(self, *args, **kwargs):
+        cache = self.__dict__.setdefault(name, {})
+        key = (args, tuple(sorted(kwargs.items())))
+        if key not in cache:
+            cache[key] = f(self, *args, **kwargs)
+        return cache[key]
+
+    return g
+
+
 @functools.total_ordering
 class BaseDecay(object):
     """
@@ -378,7 +398,7 @@ class Decay(BaseDecay):  # add useful methods to BaseDecay
         """
         return tuple([l for l, s in self.get_ls_list()])
 
-    @functools.lru_cache()
+    @instance_cache_fun
     def get_min_l(self):
         """
         The minimal l in the LS coupling
@@ -403,7 +423,7 @@ class Decay(BaseDecay):  # add useful methods to BaseDecay
             ret.append((name_r, name_i))
         return ret
 
-    @functools.lru_cache()
+    @instance_cache_fun
     def get_cg_matrix(self):  # CG factor inside H
         """
         The matrix indexed by :math:`[(l,s),(\\lambda_b,\\lambda_c)]`. The matrix element is
